@@ -1,5 +1,7 @@
 package x25519
 
+import fp "github.com/cloudflare/circl/math/fp25519"
+
 // C06: X25519 input handling equals RFC 7748 and the success flag is false exactly for the
 // small-order u-coordinates.  The Montgomery ladder itself is replaced by a recorder: what is
 // decided is the value handed to it and the flag (real fp.Modp carry chain and table compare).
@@ -67,4 +69,17 @@ func ZZ_C06_x25519_Shared_flag() {
 	for i := 0; i < Size; i++ {
 		zzAssert(public[i] == pub0[i] && secret[i] == sec0[i], "operands unchanged")
 	}
+}
+
+//zz:replace math/fp25519.Inv set=invuf
+func zzStubInv(z, x *fp.Elt) { copy(z[:], zzUF("fp25519.inv", fp.Size, x[:])) }
+
+//zz: prop=C06 tier=quick backend=lia use=invuf timeout=300
+func ZZ_C06_x25519_toAffine_canonical() {
+	var x, z fp.Elt
+	zzFillLimbs("x", x[:])
+	zzFillLimbs("z", z[:])
+	var k [fp.Size]byte
+	toAffine(&k, &x, &z)
+	zzAssert(zzWLt(zzWLE(k[:]), zzWConst(zzP25519)), "ladder output is the canonical representative (< p)")
 }
